@@ -1,0 +1,30 @@
+//go:build verif
+
+package tcp
+
+import (
+	"net"
+
+	"github.com/DataDog/datadog-traceroute/common"
+	"github.com/DataDog/datadog-traceroute/packets"
+)
+
+// VerifNewDriver constructs the real tcpDriver over a given Source/Sink with a chosen local endpoint.
+func VerifNewDriver(cfg *TCPv4, srcIP net.IP, srcPort uint16, sink packets.Sink, source packets.Source) common.TracerouteDriver {
+	cfg.srcIP = srcIP
+	cfg.srcPort = srcPort
+	return newTCPDriver(cfg, sink, source)
+}
+
+// VerifDriverIDs returns the packet-ID base and constant sequence number of a driver (default mode).
+func VerifDriverIDs(d common.TracerouteDriver) (uint16, uint32) {
+	t := d.(*tcpDriver)
+	return t.basePacketID, t.seqNum
+}
+
+// VerifSetDriverIDs overrides the packet-ID base and constant sequence number (default mode).
+func VerifSetDriverIDs(d common.TracerouteDriver, base uint16, seq uint32) {
+	t := d.(*tcpDriver)
+	t.basePacketID = base
+	t.seqNum = seq
+}
